@@ -57,6 +57,7 @@ pub struct Ctx {
     pub samples: Vec<String>,
     pub distinct: std::collections::HashSet<u64>,
     pub known_seen: BTreeMap<String, String>,
+    cur_file: Option<File>,
 }
 
 impl Ctx {
@@ -79,6 +80,7 @@ impl Ctx {
             samples: Vec::new(),
             distinct: Default::default(),
             known_seen: BTreeMap::new(),
+            cur_file: None,
         }
     }
     /// One correspondence case: the same `stream\tfields…` line goes to the Lean model driver;
@@ -100,7 +102,15 @@ impl Ctx {
     /// Record the input that is about to run in `<out>/current_input.txt`, for properties whose violation can
     /// kill the process (memory errors, stack overflow): if the harness dies, `./check` reports this input.
     pub fn begin(&mut self, input: &str) {
-        let _ = std::fs::write(self.out_dir.join("current_input.txt"), input);
+        use std::os::unix::fs::FileExt;
+        if self.cur_file.is_none() {
+            self.cur_file = File::create(self.out_dir.join("current_input.txt")).ok();
+        }
+        if let Some(f) = &self.cur_file {
+            // one positioned write and one truncate per call: cheap enough to call before every step
+            let _ = f.write_all_at(input.as_bytes(), 0);
+            let _ = f.set_len(input.len() as u64);
+        }
     }
     /// Mark a case as non-trivial and distinct (by hash of a caller-chosen key).
     pub fn nontrivial(&mut self, key: &str) {
